@@ -39,13 +39,12 @@ Theorem C10_parse_document_panics_iff : forall d, (exists site, parse_doc d = Pa
 Proof. exact parse_document_panics_iff. Qed.
 Print Assumptions C10_parse_document_panics_iff.
 
-(* F1: `query A {..} query B {..}` panics (query.rs:132 `.nth(2).expect(..)`) *)
-Theorem C10_F1_two_operations_refuted : parse_doc f1_doc = Panic site_nth.
-Proof. exact f1_doc_panics. Qed.
-Print Assumptions C10_F1_two_operations_refuted.
-Theorem C10_parse_document_total_refuted : exists d, forall r, parse_doc d <> Ok r.
-Proof. exact parse_document_total_refuted. Qed.
-Print Assumptions C10_parse_document_total_refuted.
+(* F1 (repaired by a fix: commit): `query A {..} query B {..}` used to panic at query.rs:132
+   `.nth(2).expect(..)`; with `nth(1)` it is the MultipleOperationsInDocument error (regression
+   example; the K-two-operations class of Known1 is now empty) *)
+Example C10_F1_two_operations_regression : exists e, parse_doc f1_doc = Ok (inl e).
+Proof. exact f1_doc_is_error. Qed.
+Print Assumptions C10_F1_two_operations_regression.
 
 (* the helper parsers, each for ALL inputs *)
 Theorem C10_make_directives_total : forall ds, exists r, make_directives ds = Ok r.
